@@ -3,6 +3,7 @@ package fscache
 import (
 	"os"
 	"path"
+	"strings"
 	"sync"
 
 	"github.com/goatcms/goatcore/filesystem"
@@ -120,11 +121,29 @@ func (c *Cache) srcFS(p string) (srcFS filesystem.Filespace, src string) {
 	return srcFS, src
 }
 
+// overlaps tells whether two cleaned paths name the same node or one lies inside the other
+// (the filespace root, "" or ".", contains every node)
+func overlaps(a, b string) bool {
+	if a == "." {
+		a = ""
+	}
+	if b == "." {
+		b = ""
+	}
+	if a == "" || b == "" {
+		return true
+	}
+	return strings.HasPrefix(a+"/", b+"/") || strings.HasPrefix(b+"/", a+"/")
+}
+
 // Copy duplicate a file or directory
 func (c *Cache) Copy(src, dest string) (err error) {
 	var srcFS filesystem.Filespace
 	srcFS, src = c.srcFS(src)
 	dest = varutil.CleanPath(dest)
+	if overlaps(src, dest) {
+		return goaterr.Errorf("Copy: source (%s) and destination (%s) are the same node or one contains the other", src, dest)
+	}
 	if err = (fshelper.Copier{
 		SrcFS:    srcFS,
 		SrcPath:  src,
